@@ -241,7 +241,8 @@ class PairWorld(WsWorld):
             budget -= L
             plan.append({"len": L, "kind": kind, "api": api, "fragsize": fs, "dnc": ch.flag("doNotCompress", 0.2),
                          "binary": ch.flag("binary", 0.7), "token": "%s%d" % (ep.name, i),
-                         "cuts": [ch.choose(L + 1, "cut") for _ in range(ch.choose(3, "ncuts"))] if api == "frame" else []})
+                         "cuts": [ch.choose(L + 1, "cut") for _ in range(ch.choose(3, "ncuts"))] if api == "frame" else [],
+                         "interject": api == "frame" and ch.flag("whole-message-before-first-frame", 0.25)})
         return plan
 
     def extra_actions(self):
@@ -264,6 +265,14 @@ class PairWorld(WsWorld):
             elif op["api"] == "frame":
                 cuts = sorted(set(c for c in op["cuts"] if 0 < c < len(payload)))
                 p.beginMessage(binary, doNotCompress=op["dnc"])
+                if op["interject"]:
+                    # a whole message (e.g. a reply sent from onMessage) goes out after beginMessage() but before the
+                    # first frame of the begun message: legal on the wire, and each keeps its own compression flag
+                    small = corpus(op["token"] + "i", 40, "repeat", self.shared)
+                    p.sendMessage(small, True, doNotCompress=not op["dnc"])
+                    ep.sent.append((small, True))
+                    ep.sent_flags.append(not op["dnc"])
+                    self.run.probe("whole-message-between-begin-and-first-frame")
                 prev = 0
                 for c in cuts + [len(payload)]:
                     p.sendMessageFrame(payload[prev:c])
